@@ -215,7 +215,11 @@ int main(int argc, char** argv) {
         int op = rng() % 7;
         if (op == 0 || cpp.empty()) { cpp.push_back(std::make_shared<Obj>(next_tag++)); COUNT("hist:new"); }
         else if (op == 1) {               // wrap: hand a handle to MATLAB
-          auto& sp = cpp[rng() % cpp.size()];
+          // now and then the C++ side hands out an empty pointer ("not found"): a handle of its own all the same
+          std::shared_ptr<Obj> none;
+          bool empty = (rng() % 7) == 0;
+          auto& sp = empty ? none : cpp[rng() % cpp.size()];
+          if (empty) COUNT("hist:wrap_empty");
           mock::begin_call();
           mxArray* h = wrap_shared_ptr(sp, "Obj", false);
           mxArray* keep[1] = {h};
@@ -224,7 +228,8 @@ int main(int argc, char** argv) {
           mxArray* p = mxGetProperty(h, 0, "ptr_Obj");
           std::shared_ptr<Obj>* heap = *reinterpret_cast<std::shared_ptr<Obj>**>(mxGetData(p));
           mxDestroyArray(p);
-          handles.push_back({h, sp->tag, heap});
+          for (auto& other : handles) if (other.heap == heap) fail("two handles share one heap cell", std::to_string(other.tag));
+          handles.push_back({h, sp ? sp->tag : 0, heap});
           COUNT("hist:wrap");
         } else if (op == 2 && !handles.empty()) {   // unwrap: must designate the same object
           auto& H = handles[rng() % handles.size()];
@@ -232,8 +237,11 @@ int main(int argc, char** argv) {
           std::shared_ptr<Obj> back = unwrap_shared_ptr<Obj>(H.h, "ptr_Obj");
           mock::end_call(nullptr, 0);
           COUNT("hist:unwrap_shared");
-          if (!back || back->tag != H.tag || back.get() != H.heap->get()) fail("unwrap_shared_ptr designates a different object", std::to_string(H.tag));
-          if (rng() % 2) cpp.push_back(back);
+          if (H.tag == 0) { if (back) fail("unwrap_shared_ptr of an empty handle designates an object", "0"); }
+          else {
+            if (!back || back->tag != H.tag || back.get() != H.heap->get()) fail("unwrap_shared_ptr designates a different object", std::to_string(H.tag));
+            if (rng() % 2) cpp.push_back(back);
+          }
         } else if (op == 3 && !handles.empty()) {   // raw pointer unwrap
           auto& H = handles[rng() % handles.size()];
           mock::begin_call();
@@ -257,7 +265,7 @@ int main(int argc, char** argv) {
         // quiescent point: live objects == distinct objects referenced by cpp or handles
         std::set<Obj*> distinct;
         for (auto& sp : cpp) distinct.insert(sp.get());
-        for (auto& H : handles) distinct.insert(H.heap->get());
+        for (auto& H : handles) if (H.heap->get()) distinct.insert(H.heap->get());
         COUNT("hist:quiescent_checks");
         if (Obj::live != (long)distinct.size()) { fail("live-instance count disagrees with outstanding handles/references", std::to_string(Obj::live) + " vs " + std::to_string(distinct.size())); break; }
       }
